@@ -109,6 +109,8 @@ def bounds(db, ctx):
                     # a field of a struct built in place: name it by type and field instead of spelling out the whole literal
                     px = peel_casts(x)
                     xs = ("%s.%s" % (short_path(px.get("adt") or "?"), px.get("name"))) if px.get("k") == "Field" else render(x)
+                from ..inline import pcanon
+                xs = pcanon(f, xs, "#0", "#1", "#2", "#3", "#4", "#5")      # ... nor on a parameter's name: parameters by position
                 narrow = narrowing_casts(x, db, f) if x else []
                 signed_ok = True
                 xty = (x or {}).get("ty", "")
@@ -509,7 +511,7 @@ def pos(db, ctx):
                         pk = pat_kind(pat)
                         if mentions(scrut, is_call_to("get_part_of_speech_id")):
                             return exists if pk == "Some" else (not exists) if pk == "None" else None
-                        if nf(scrut) == "mode" and pk in ("Allow", "Forbid"):
+                        if "UserPosMode" in (peel(scrut).get("ty") or "") and pk in ("Allow", "Forbid"):
                             return pk == mode
                         return None
                     a = peel(atom)
@@ -522,7 +524,7 @@ def pos(db, ctx):
                     if c and c[0] in ("Eq", "Ne"):
                         for x, y in ((c[1], c[2]), (c[2], c[1])):
                             px = peel(x)
-                            if px.get("k") == "Path" and "UserPosMode::" in (px.get("path") or "") and nf(y) == "mode":
+                            if px.get("k") == "Path" and "UserPosMode::" in (px.get("path") or "") and "UserPosMode" in (peel(y).get("ty") or ""):
                                 eq = px["path"].split("::")[-1] == mode
                                 return eq if c[0] == "Eq" else (not eq)
                     if a.get("k") == "Call" and path_ends(a.get("callee") or "", ("PartialEq::eq", "eq")) and len(a.get("args", [])) == 2:
